@@ -650,60 +650,125 @@ def _split_top(text):
     return [x.strip() for x in out]
 
 
-def r21_inline_helpers(sf, container, body, known, self_name, known_free=_ALL_NAMES):
-    """R21: a call `self.helper(args)` / `Self::helper(args)` of a method of the same type that is not under
-    contract in this unit (typically a helper split off the function) is replaced by the helper's body: a block
-    that first evaluates the arguments in order, binds them to the parameters and then runs the body (the
-    textbook beta-reduction of a call; only for helpers without `return`, `?`, generics and recursion, at most three
-    levels deep).  Returns (body, [names inlined])."""
+_NEW_FNS = {"repo": None, "map": None}
+
+
+def new_functions():
+    """Every function of /repo/src/*.rs that is NOT on the pinned tree (specs/fn_index.json): name -> [(SourceFile,
+    container, Item)].  These are the helpers a refactoring has split off; R21 inlines calls to them."""
+    if _NEW_FNS["map"] is not None and _NEW_FNS["repo"] == REPO:
+        return _NEW_FNS["map"]
+    out = {}
+    try:
+        with open(os.path.join(SPECS, "fn_index.json")) as f:
+            index = json.load(f)
+    except Exception:
+        index = None
+    if index is not None:
+        import glob
+        for path in sorted(glob.glob(os.path.join(REPO, "src", "*.rs"))):
+            rel = "src/" + os.path.basename(path)
+            if rel not in index:
+                continue     # a new file: nothing in it is under contract
+            old = set(index[rel])
+            try:
+                sf = load_source(rel)
+            except Exception:
+                continue
+            for (hdr, kw, o, c) in sf.impls():
+                for mm in rustscan.find_code(sf.src, sf.mask, r"\bfn\s+(\w+)\b", o, c):
+                    if sf._depth_between(o, mm.start()) == 1 and ("%s::%s" % (hdr, mm.group(1))) not in old:
+                        try:
+                            out.setdefault(mm.group(1), []).append((sf, hdr, sf._make_item("fn", mm.group(1), mm.start(), hdr)))
+                        except ScanError:
+                            pass
+            for mm in rustscan.find_code(sf.src, sf.mask, r"\bfn\s+(\w+)\b"):
+                if sf._depth_at(mm.start()) == 0 and ("::%s" % mm.group(1)) not in old:
+                    try:
+                        out.setdefault(mm.group(1), []).append((sf, None, sf._make_item("fn", mm.group(1), mm.start(), None)))
+                    except ScanError:
+                        pass
+    _NEW_FNS["repo"], _NEW_FNS["map"] = REPO, out
+    return out
+
+
+def r21_inline_helpers(body, self_name, under_contract=()):
+    """R21: a call of a function that is new relative to the pinned tree (a helper that a refactoring split off; see
+    new_functions) is replaced by the helper's body: a block that first evaluates the arguments in order, binds them to
+    the parameters and then runs the body, with `self` replaced by the receiver (the textbook beta-reduction of a
+    call).  Only for helpers with a unique name, without `return`, `?` and recursion (type parameters are left to inference); receivers must be
+    plain places (`self`, `self.style`, a local); three levels deep.  Returns (body, [names inlined])."""
     done = []
+    news = new_functions()
+    if not news:
+        return body, done
     for _round in range(3):
         mask = rustscan.code_mask(body)
         hit = None
-        for mm in re.finditer(r"(\bself\.|\bSelf::|(?<![\w.:!]))([a-z_]\w*)\(", body):
-            if not mask[mm.start()] or (mm.start() > 0 and body[mm.start() - 1] in "._:"):
+        for name, cands in news.items():
+            if len(cands) != 1 or name == self_name or name in under_contract:
                 continue
-            name = mm.group(2)
-            free = mm.group(1) == ""
-            if free:
-                if name in known_free or name == self_name or re.search(r"\bfn\s*$", body[:mm.start()]):
+            (csf, ccont, cal) = cands[0]
+            for mm in re.finditer(r"\b%s\(" % re.escape(name), body):
+                if not mask[mm.start()] or re.search(r"\bfn\s*$", body[:mm.start()]):
                     continue
-            elif container is None or name in known or name == self_name:
-                continue
-            try:
-                cal = sf.find_fn(name, None if free else container, 0)
-            except ScanError:
-                continue
-            csig = strip_vis(strip_comments(cal.signature)).strip()
-            cbody = strip_comments(cal.body)
-            cm = rustscan.code_mask(cbody)
-            if re.search(r"\bfn\s+\w+\s*<", csig) or "where" in csig.split(")")[-1]:
-                continue
-            if any(cm[x.start()] for x in re.finditer(r"\breturn\b|\?", cbody)):
-                continue
-            if re.search(r"\b(self\.|Self::)%s\(" % re.escape(name), cbody):
-                continue
-            po = csig.index("(")
-            pc = _match_paren(csig, rustscan.code_mask(csig), po)
-            params = _split_top(csig[po + 1:pc])
-            takes_self = bool(params) and re.match(r"^(&\s*(mut\s+)?|mut\s+)?self$", re.sub(r"&\s*'\w+\s*", "&", params[0])) is not None
-            if (mm.group(1).strip() == "self.") != takes_self:
-                continue
-            if takes_self:
-                params = params[1:]
-            ao = mm.end() - 1
-            ac = _match_paren(body, mask, ao)
-            if ac < 0:
-                continue
-            args = _split_top(body[ao + 1:ac])
-            if len(args) != len(params):
-                continue
-            hit = (mm.start(), ac + 1, name, params, args, cbody)
-            break
+                csig = strip_vis(strip_comments(cal.signature)).strip()
+                cbody = strip_comments(cal.body)
+                cm = rustscan.code_mask(cbody)
+                if any(cm[x.start()] for x in re.finditer(r"\breturn\b|\?", cbody)):
+                    continue
+                if re.search(r"\b%s\(" % re.escape(name), cbody):
+                    continue
+                po = csig.index("(")
+                pc = _match_paren(csig, rustscan.code_mask(csig), po)
+                params = _split_top(csig[po + 1:pc])
+                takes_self = bool(params) and re.match(r"^(&\s*(mut\s+)?|mut\s+)?self$", re.sub(r"&\s*'\w+\s*", "&", params[0])) is not None
+                # what stands in front of the name: a receiver (`recv.name(`), a path (`Self::name(`, `Type::name(`) or nothing
+                start = mm.start()
+                recv = None
+                pre = body[:start]
+                if pre.endswith("."):
+                    rm = re.search(r"([A-Za-z_]\w*(?:\.\w+)*)\.$", pre)
+                    if not rm or not takes_self:
+                        continue
+                    recv = rm.group(1)
+                    start = rm.start(1)
+                    if start > 0 and body[start - 1] in ".)]?":
+                        continue      # the receiver is the result of a longer expression
+                elif pre.endswith("::"):
+                    rm = re.search(r"((?:[A-Za-z_]\w*::)+)$", pre)
+                    if not rm or takes_self:
+                        continue
+                    start = rm.start(1)
+                elif takes_self:
+                    continue
+                if takes_self:
+                    params = params[1:]
+                ao = mm.end() - 1
+                ac = _match_paren(body, mask, ao)
+                if ac < 0:
+                    continue
+                args = _split_top(body[ao + 1:ac])
+                if len(args) != len(params):
+                    continue
+                hit = (start, ac + 1, name, params, args, cbody, recv)
+                break
+            if hit:
+                break
         if not hit:
             break
-        (a, b, name, params, args, cbody) = hit
+        (a, b, name, params, args, cbody, recv) = hit
         inner = cbody[cbody.index("{") + 1:cbody.rindex("}")]
+        if recv is not None and recv != "self":
+            im = rustscan.code_mask(inner)
+            inner = "".join(inner[i] for i in range(len(inner)))
+            # `self` of the helper is the receiver of the call
+            pieces, last = [], 0
+            for x in re.finditer(r"\bself\b", inner):
+                if im[x.start()]:
+                    pieces.append(inner[last:x.start()]); pieces.append(recv); last = x.end()
+            pieces.append(inner[last:])
+            inner = "".join(pieces)
         binds = "".join("let __r21_%d = %s; " % (i, x) for i, x in enumerate(args))
         binds += "".join("let %s = __r21_%d; " % (prm, i) for i, prm in enumerate(params))
         body = body[:a] + "({ /* R21: %s inlined */ %s%s })" % (name, binds, inner) + body[b:]
@@ -776,8 +841,7 @@ class Fn:
         sig = strip_vis(strip_comments(it.signature)).strip()
         body = strip_comments(it.body)
         if not self.stub:
-            body, inl = r21_inline_helpers(sf, self.container, body, unit.known_fn_names(self.file, self.container), self.name,
-                                           unit.known_fn_names(self.file, None))
+            body, inl = r21_inline_helpers(body, self.name, set(it2.name for it2 in unit.items if isinstance(it2, Fn)))
             if inl:
                 applied.append("R21")
                 unit.inlined.setdefault(where, []).extend(inl)
